@@ -273,7 +273,21 @@ func headerFields(part, parts int) {
 			}
 		}
 		// huge declared lengths in every length-carrying position (a few explicit cases)
-		for _, ln := range [][]byte{{0xFF, 0x7F}, {0xFF, 0xFF, 0x7F}, {0xFF, 0xFF, 0xFF, 0x7F}, {0x81, 0x80, 0x80, 0x00}} {
+		// (and quantities of five and more bytes, which no writer produces: the
+		// values around 2^31, 2^32 and 2^35, 2^63, a padded small one)
+		overlong := [][]byte{{0x8F, 0xFF, 0xFF, 0xFF, 0x7F}, {0x8F, 0xFF, 0xFF, 0xFF, 0x7E}, {0x88, 0x80, 0x80, 0x80, 0x00}, {0x87, 0xFF, 0xFF, 0xFF, 0x7F},
+			{0x81, 0x80, 0x80, 0x80, 0x00}, {0x90, 0x80, 0x80, 0x80, 0x00}, {0x90, 0x80, 0x80, 0x80, 0x01}, {0xFF, 0xFF, 0xFF, 0xFF, 0x7F},
+			{0x81, 0x80, 0x80, 0x80, 0x80, 0x00}, {0x80, 0x80, 0x80, 0x80, 0x05}, {0xFF, 0xFF, 0xFF, 0xFF, 0xFF, 0xFF, 0xFF, 0xFF, 0x7F},
+			{0x81, 0x80, 0x80, 0x80, 0x80, 0x80, 0x80, 0x80, 0x80, 0x00}, {0x82, 0x80, 0x80, 0x80, 0x80, 0x80, 0x80, 0x80, 0x80, 0x01}}
+		for _, ln := range overlong {
+			// as a delta time in front of every kind of event
+			for _, ev := range [][]byte{{0x90, 0x40, 0x40}, {0xC0, 0x05}, {0xFF, 0x01, 0x01, 0x41}, {0xF0, 0x01, 0xF7}, {0xFF, 0x2F, 0x00}} {
+				b := append(append([]byte{}, ln...), ev...)
+				b = append(b, 0x00, 0xFF, 0x2F, 0x00)
+				basic(append(hdr(0, 1, 96), refsmf.Chunk("MTrk", b)...), "declared-length", "overlong-delta")
+			}
+		}
+		for _, ln := range append([][]byte{{0xFF, 0x7F}, {0xFF, 0xFF, 0x7F}, {0xFF, 0xFF, 0xFF, 0x7F}, {0x81, 0x80, 0x80, 0x00}}, overlong...) {
 			for _, lead := range [][]byte{{0xFF, 0x01}, {0xF0}, {0xF7}, {0xFF, 0x7F}, {0xFF, 0x51}} {
 				body := append([]byte{0x00}, lead...)
 				body = append(body, ln...)
